@@ -987,6 +987,14 @@ def opt_steps_for(p, level="full"):
             B("/", C(n0), call(C(n0), "sum")), ("item", B("+", C(n0), L(1)), B(">", C(n1), L(0)))]
     # consumers that end a pipeline
     out += [call(X, "sum", numeric_only=True), call(X, "count"), call(C(n0), "sum"), call(X, "max", numeric_only=True), attr(X, "index"), call(X, "nunique")]
+    if level == "core":
+        core = [("cols", X, (cols[-1], cols[0])), C(n0), ("item", X, B(">", C(n0), L(3))), ("item", X, B(">", C(n0), call(C(n0), "mean"))),
+                ("item", X, B("|", B("&", B(">", C(n0), L(2)), B("<", C(n1), L(2))), B("&", B(">", C(n0), L(2)), B("==", C(n1), L(2))))),
+                call(X, "assign", z=E(B("+", C(n0), L(1)))), call(X, "assign", **{n0: E(B("*", C(n0), L(2)))}), call(X, "rename", columns=D((n0, "A"))),
+                call(X, "astype", D((n0, "float64"))), call(X, "fillna", 0), B("+", C(n0), C(n1)), call(X, "sum", numeric_only=True)]
+        if n0 != n1:
+            core.append(call(X, "assign", **{n1: E(C(n0)), n0: E(C(n1))}))
+        return _dedup(core)
     if level == "ext" and n0 != n1:
         G = call(X, "groupby", n1)
         OTHER = call(("cols", X, (n1, n0)), "rename", columns=D((n0, "w")))
